@@ -326,6 +326,11 @@ REGISTRY["C13"]["teq"].append({"engine": "conc", "quick": {"n": 24, "mode": "mem
 REGISTRY["C12"]["teq"].append(seq({"only": "limited", "autocheck": 1, "n": 6, "ops": 80, "seedoff": 212}, {"only": "limited", "autocheck": 1, "seedoff": 212}))
 REGISTRY["C13"]["teq"].append(seq({"only": "limited", "n": 10, "ops": 80, "seedoff": 113}, {"only": "limited", "seedoff": 113}))
 REGISTRY["C11"]["teq"].append(_f1(11))
+for _pid, _off in (("C09", 9), ("C05", 5)):
+    REGISTRY[_pid]["teq"].append({"engine": "failpath", "quick": {"n": 60, "seedoff": 400 + _off}, "thorough": {"n": 2500, "seedoff": 400 + _off},
+                                  "oracle": True, "mismatch_is_failure": True, "timeout": 3400,
+                                  "nontrivial": lambda case, res: "r=io" in res or "r=indet" in res or "r=space" in res, "distinct_key": lambda case, res: case,
+                                  "what": "T-eq for Model.FailPath: one shard's write path with the periodic coordinator paused (hook H11) and the pwrite path forced, so that the device calls of every flush() are numbered deterministically; an observer fails the calls named by a random plan (0-30 % of the first 90 calls, before or after the call), on roomy and on nearly full devices; 1-3 rounds of 0-3 inserts of 1-3 blocks and a flush. After every flush the result class (Ok / IoError / IndeterminateWrite / OutOfSpace), the allocator statistics, the disk-usage counter, the published records with their sectors and the number of device calls made must equal Model.FailPath.flush on the same plan. Oracle independent of the model: every accepted key stays readable with its bytes whatever failed; a flush that returned Ok left every earlier key published"})
 for _asan in (False, True):
     REGISTRY["C20"]["teq"].append({"engine": "abuf", "quick": {"n": 1500, "seedoff": 20}, "thorough": {"n": 30000, "seedoff": 20}, "asan": _asan,
                                     "oracle": True, "mismatch_is_failure": True, "timeout": 3400,
